@@ -130,17 +130,21 @@ class CustomOperatorMul(OperatorMul):
 class CustomOperatorTruediv(OperatorTruediv):
     symbol: str = ' / '
 
+def _pure(arg):
+    # a dimensionless argument written in a unit (%, ppth, a ratio of two lengths...) stands for a pure number
+    return Quantity(arg.value('1')) if arg.baseunits.expression and arg.baseunits.dimensions.nodim else arg
+
 class CustomOperatorExp(OperatorExp):
     def operate_args(self, tokens):
-        tokens.put_left(Quantity(np.e)**self.args[0].value())        
+        tokens.put_left(Quantity(np.e)**_pure(self.args[0]).value())        
             
 class CustomOperatorLog(OperatorLog):
     def operate_args(self, tokens):
-        tokens.put_left(np.log(self.args[0]))     
+        tokens.put_left(np.log(_pure(self.args[0])))     
 
 class CustomOperatorLog10(OperatorLog10):
     def operate_args(self, tokens):
-        tokens.put_left(np.log10(self.args[0]))        
+        tokens.put_left(np.log10(_pure(self.args[0])))        
 
 class CustomOperatorSqrt(OperatorSqrt):
     def operate_args(self, tokens):
@@ -148,21 +152,21 @@ class CustomOperatorSqrt(OperatorSqrt):
 
 class CustomOperatorSin(OperatorSin):
     def operate_args(self, tokens):
-        tokens.put_left(np.sin(self.args[0]))      
+        tokens.put_left(np.sin(_pure(self.args[0])))      
 
 class CustomOperatorCos(OperatorCos):
     def operate_args(self, tokens):
-        tokens.put_left(np.cos(self.args[0]))       
+        tokens.put_left(np.cos(_pure(self.args[0])))       
 
 class CustomOperatorTan(OperatorTan):
     def operate_args(self, tokens):
-        tokens.put_left(np.tan(self.args[0]))       
+        tokens.put_left(np.tan(_pure(self.args[0])))       
 
 class CustomOperatorLogb(OperatorLogb):
     def operate_args(self, tokens):
-        tokens.put_left(np.log(self.args[0])/np.log(self.args[1]))
+        tokens.put_left(np.log(_pure(self.args[0]))/np.log(_pure(self.args[1])))
 
 class CustomOperatorPowb(OperatorPowb):
     def operate_args(self, tokens):
-        tokens.put_left(np.power(self.args[0],self.args[1].value()))     
+        tokens.put_left(np.power(self.args[0],_pure(self.args[1]).value()))     
 
